@@ -50,10 +50,14 @@ theorem fields_DLEQV4 : Gen.fields_DLEQV4 =
 /-- The modelled marshallers (`Model.TokenWire`) take field names and `omitempty` from exactly these tags, in
     declaration order. -/
 theorem wire_tags :
-    Gen.fields_Proof.map (·.2.2) = Wire.tagsProof ∧ Gen.fields_DLEQProof.map (·.2.2) = Wire.tagsDLEQProof ∧
-    Gen.fields_TokenV3.map (·.2.2) = Wire.tagsTokenV3 ∧ Gen.fields_TokenV3Proof.map (·.2.2) = Wire.tagsTokenV3Proof ∧
-    Gen.fields_TokenV4.map (·.2.2) = Wire.tagsTokenV4 ∧ Gen.fields_TokenV4Proof.map (·.2.2) = Wire.tagsTokenV4Proof ∧
-    Gen.fields_ProofV4.map (·.2.2) = Wire.tagsProofV4 ∧ Gen.fields_DLEQV4.map (·.2.2) = Wire.tagsDLEQV4 := by decide
+    Gen.fields_Proof.map (·.2.2) = Wire.tagsProof.map Wire.tagText ∧
+    Gen.fields_DLEQProof.map (·.2.2) = Wire.tagsDLEQProof.map Wire.tagText ∧
+    Gen.fields_TokenV3.map (·.2.2) = Wire.tagsTokenV3.map Wire.tagText ∧
+    Gen.fields_TokenV3Proof.map (·.2.2) = Wire.tagsTokenV3Proof.map Wire.tagText ∧
+    Gen.fields_TokenV4.map (·.2.2) = Wire.tagsTokenV4.map Wire.tagText ∧
+    Gen.fields_TokenV4Proof.map (·.2.2) = Wire.tagsTokenV4Proof.map Wire.tagText ∧
+    Gen.fields_ProofV4.map (·.2.2) = Wire.tagsProofV4.map Wire.tagText ∧
+    Gen.fields_DLEQV4.map (·.2.2) = Wire.tagsDLEQV4.map Wire.tagText := by decide
 
 /-- `Unit.String()`: `Sat` ↦ `"sat"`, anything else `"unknown"`. -/
 theorem unitString_table : Gen.unit_String = [("Sat", unitString 0), ("default", unitString 1)] := rfl
